@@ -795,6 +795,10 @@ def check(ctx):
     rule_union_direction(ctx)
     rule_fold_direction(ctx)
     rule_empty_labels(ctx)
+    # align() skips the reindexing of an input whose axis == the common axis: that equality must be exact (shared with C13)
+    from . import c13 as _c13
+    ctx.rule('R15', 'Axis.__eq__ (the "already aligned" test) is exact', 1)
+    _c13.rule_axis_eq(ctx, 'R15')
     # the labels of newly inserted positions are written through Axis.__setitem__ (shared with C05)
     from . import c05 as _c05
     ctx.rule('R14', 'Axis.__setitem__ keeps the widened label buffer it writes into', 1)
